@@ -192,7 +192,7 @@ Definition sync_step (x : sys) (o : op) : sys * obs :=
       end
     end
   | OSetFaults l => ({| s_flw := s_flw x; s_w := set_faults w l; s_tl := s_tl x; s_dead := s_dead x |}, ObsRes 0 false)
-  | OSetKill k => ({| s_flw := s_flw x; s_w := set_kill w (Some k); s_tl := s_tl x; s_dead := s_dead x |}, ObsRes 0 false)
+  | OSetKill k => ({| s_flw := s_flw x; s_w := set_kill w (Some (S k)); s_tl := s_tl x; s_dead := s_dead x |}, ObsRes 0 false)
   | OCrash => ({| s_flw := None; s_w := set_acts (set_kill w None) O; s_tl := []; s_dead := false |}, ObsRes 0 false)
   | OSnap => (x, snapshot w)
   end.
